@@ -33,6 +33,14 @@ type sess struct {
 	opIdx int
 	fp    []string
 	nontr bool
+	// results of successful Gets that the caller keeps: they must not change under later calls
+	held []heldGet
+}
+
+type heldGet struct {
+	spec BlkSpec
+	data []byte
+	want []byte
 }
 
 func safeCall(f func()) (pv any) {
@@ -255,6 +263,9 @@ func (s *sess) accept(st int, op Op, res opResult) (ok bool, next int, apply fun
 		}
 		if !bytes.Equal(res.data, want) {
 			return false, 0, nil, fmt.Sprintf("Get(%s) returned wrong bytes (%d bytes, want %d)", blk.Spec, len(res.data), len(want))
+		}
+		if len(s.held) < 64 && len(res.data) > 0 {
+			s.held = append(s.held, heldGet{spec: blk.Spec, data: res.data, want: want})
 		}
 		return true, st, nil, ""
 	case "getsize":
@@ -496,6 +507,11 @@ func RunSessionC04(t *Trace, st *Stats) *Violation {
 					return v
 				}
 			}
+		}
+	}
+	for _, hg := range s.held {
+		if !bytes.Equal(hg.data, hg.want) {
+			return viol("session/wrong-bytes/held-result", "the bytes returned by an earlier Get(%s) changed under later calls (the result aliases storage that was reused)", hg.spec)
 		}
 	}
 	if s.nontr {
